@@ -217,6 +217,25 @@ def coupler_cases(rng, hist):
     s = coupler.additive(p)(f)(x)
     if not common.same_float(s, f(x) + p(x)):
         out.append(("coupler/additive", "additive(p)(f)(x) != f(x)+p(x) at x=%r" % (x,), {"x": x, "p": dsl.expr_sexp(e2), "f": dsl.expr_sexp(e)}))
+    # the coupled functions are functions of the VALUE of their argument: reuse one coupled function, on the same
+    # list / array object edited in place between calls, on fresh copies, and on a second point
+    import numpy as _np
+    fi = coupler.inner(cf)(f); fo = coupler.outer(cf)(g); fa = coupler.additive(p)(f)
+    for buf in (list(x), _np.array(x, dtype=float)):
+        seq = [list(x), gen_point(rng, dim), list(x), gen_point(rng, dim)]
+        for v in seq:
+            for i in range(dim):
+                buf[i] = v[i]
+            vv = [float(t) for t in buf]
+            if not common.same_float(fi(buf), f(cf(list(vv)))):
+                out.append(("coupler/inner-reused", "a reused inner(c)(f), called on the same %s object refilled with %r, returns %r, f(c(x)) = %r" % (type(buf).__name__, vv, fi(buf), f(cf(list(vv)))), {"x": vv, "c": dsl.con_sexp(c), "f": dsl.expr_sexp(e)}))
+            if not same_vec([float(t) for t in fo(buf)], cf(g(list(vv)))):
+                out.append(("coupler/outer-reused", "a reused outer(c)(f) on the same object refilled with %r differs from c(f(x))" % (vv,), {"x": vv, "c": dsl.con_sexp(c)}))
+            if not common.same_float(fa(buf), f(list(vv)) + p(list(vv))):
+                out.append(("coupler/additive-reused", "a reused additive(p)(f) on the same object refilled with %r differs from f(x)+p(x)" % (vv,), {"x": vv}))
+            if [float(t) for t in buf] != vv:
+                out.append(("coupler/argument-modified", "a coupled function modified its argument %r -> %r" % (vv, [float(t) for t in buf]), {"x": vv}))
+    hist["coupler-reuse"] = hist.get("coupler-reuse", 0) + 24
     hist["coupler"] = hist.get("coupler", 0) + 3
     # penalty combinators: members of every type on conditions with feasible and infeasible points
     ptypes_eq = [P.quadratic_equality, P.linear_equality, P.uniform_equality]
